@@ -248,6 +248,7 @@ func (g *gworld) due(at time.Time) []dueT {
 		})
 		var voters []string
 		nvot, zeroPower := 0, 0
+		deducted := map[int]sdkmath.LegacyDec{}
 		vrng := collections.NewPrefixedPairRange[uint64, sdk.AccAddress](p.Id)
 		_ = k.Votes.Walk(ctx, vrng, func(vk collections.Pair[uint64, sdk.AccAddress], vote v1.Vote) (bool, error) {
 			voter := vk.K2()
@@ -258,6 +259,10 @@ func (g *gworld) due(at time.Time) []dueT {
 			_ = sk.IterateDelegations(ctx, voter, func(_ int64, d stakingtypes.DelegationI) bool {
 				if i, ok := idx[d.GetValidatorAddr()]; ok {
 					dels = append(dels, fmt.Sprintf("%d %s", i, decS(d.GetShares())))
+					if _, ok := deducted[i]; !ok {
+						deducted[i] = sdkmath.LegacyZeroDec()
+					}
+					deducted[i] = deducted[i].Add(d.GetShares())
 				}
 				return false
 			})
@@ -268,6 +273,25 @@ func (g *gworld) due(at time.Time) []dueT {
 			nvot++
 			return false, nil
 		})
+		// the hypotheses of the Lean theorem gov_tally_total, evaluated on the real staking state (they are SDK staking
+		// invariants: bonded validators have positive shares; a validator's voting delegators hold at most its shares)
+		hypOK := true
+		_ = sk.IterateBondedValidatorsByPower(ctx, func(_ int64, v stakingtypes.ValidatorI) bool {
+			i := idx[v.GetOperator()]
+			if !v.GetDelegatorShares().IsPositive() || v.GetBondedTokens().IsNegative() {
+				hypOK = false
+			}
+			if d, ok := deducted[i]; ok && d.GT(v.GetDelegatorShares()) {
+				hypOK = false
+			}
+			return false
+		})
+		if hypOK {
+			g.out.Count("gtally:theorem-hypotheses-hold")
+		} else {
+			g.out.Count("gtally:theorem-hypotheses-FAIL")
+			g.out.Violate(fmt.Sprintf("C07 gov tally: the staking state of proposal %d's tally does not satisfy the hypotheses of gov_tally_total (a bonded validator without delegator shares, or voting delegators holding more shares than their validator)", p.Id))
+		}
 		params, _ := k.Params.Get(ctx)
 		bonded, _ := sk.TotalBondedTokens(ctx)
 		quorum, _ := sdkmath.LegacyNewDecFromStr(k.GetCustomMsgQuorum(ctx, params.Quorum, p))
@@ -646,7 +670,7 @@ func (g *gworld) sequence(length int) {
 			}
 			pid := voting[rng.Intn(len(voting))]
 			w := gVoteWords[rng.Intn(len(gVoteWords))]
-			if rng.Intn(3) == 0 { // everybody, mostly the same way
+			if rng.Intn(2) == 0 { // everybody, mostly the same way
 				for i := 0; i < len(g.voters); i++ {
 					if rng.Intn(5) > 0 {
 						g.opVote(pid, i, w)
@@ -686,7 +710,7 @@ func (g *gworld) sequence(length int) {
 
 func runGov(t *testing.T, out *hx.Out, rng *rand.Rand) {
 	nscen := 10
-	nseq := hx.N(6, 120)
+	nseq := hx.N(16, 150)
 	for i := 0; i < nscen; i++ {
 		g := newGWorld(t, out, rng)
 		g.scenario(i)
